@@ -39,7 +39,18 @@ pub fn calculate_shift<F: RawFloat>(power2: i32) -> i32 {
 #[cfg(feature = "power-of-two")]
 pub fn calculate_power2<F: RawFloat, const FORMAT: u128>(exponent: i64, ctlz: u32) -> i32 {
     let format = NumberFormat::<{ FORMAT }> {};
-    exponent as i32 * log2(format.exponent_base()) + F::EXPONENT_BIAS - ctlz as i32
+    // The exponent saturates near `0x10000000 * radix`, which overflows an
+    // `i32` when scaled to bits: scale as an `i64` and saturate the result.
+    let power2 = exponent.saturating_mul(log2(format.exponent_base()) as i64)
+        + F::EXPONENT_BIAS as i64
+        - ctlz as i64;
+    if power2 > 0x4000_0000 {
+        0x4000_0000
+    } else if power2 < -0x4000_0000 {
+        -0x4000_0000
+    } else {
+        power2 as i32
+    }
 }
 
 /// Bias for marking an invalid extended float.
